@@ -249,7 +249,9 @@ class EmitHook:
             #  already formatted and escaped line - "\\fs24{\\f0 ...}" - whose result it discards)
             if not self_t.convert and "{\\f" not in self_t.text:
                 hook.off_calls += 1
-                if EmitHook.decode(res) != self_t.text and len(hook.bad) < 5:
+                # ("apart from character escaping": the escaping itself must still happen - what is emitted
+                # goes into an \ansi file and has to be pure ASCII)
+                if (EmitHook.decode(res) != self_t.text or not res.isascii()) and len(hook.bad) < 5:
                     hook.bad.append({"text": self_t.text, "emitted": res})
             return res
         TextContent._convert_special_chars = wrapped
@@ -299,8 +301,8 @@ def emitter_checks(ctx, rng, hook, n):
             got = TextContent(text=text, convert=False)._convert_special_chars()
             ctx.count("emitter_hook_evaluations")
             ctx.case((text, "emitter", False), True)
-            if EmitHook.decode(got) != text:
-                ctx.violation(f"conversion off but text altered: {text!r} -> {got!r}",
+            if EmitHook.decode(got) != text or not got.isascii():
+                ctx.violation(f"conversion off but text altered or left unescaped: {text!r} -> {got!r}",
                               {"text": text, "position": "emitter", "convert": False}, {"got": got})
         elif r < 0.7:
             # conversion on: a SUPPORTED command directly followed by a brace group is looked up together
